@@ -115,6 +115,8 @@ pub struct LoopSim {
     victim_repaired: bool,
     timeout_ms: u64,
     idle_left: u32,
+    /// VH_DENSE=1: outage runs carry a dense stream (~750 datagrams/s) for 1.8 s after the path goes down
+    dense: bool,
     next_amnesia: u64,
     /// a flapping link: (link, the address it failed on, delay) -> once it is registered again from a new
     /// socket, fail it again `delay` ms later (inside the 5 s retry interval)
@@ -170,7 +172,7 @@ impl LoopSim {
             path: vec![], rtt: vec![], group: None, registered: vec![], pending: VecDeque::new(), ack_buf: vec![],
             rx_seqs: Default::default(), rx_count: 0, last_reply_at: vec![], cur_addr: vec![],
             next_seq: 5000, pkt_ctr: 0, client_idx: 0, steps_done: 0, steps_total: 3000, victim_down_at: None,
-            victim_repaired: false, timeout_ms: 5000, idle_left: 0, next_amnesia: 0, refail: None, refail_at: None, classic_since: None, last_ack_rx: 0, last_ka: vec![],
+            victim_repaired: false, timeout_ms: 5000, idle_left: 0, dense: false, next_amnesia: 0, refail: None, refail_at: None, classic_since: None, last_ack_rx: 0, last_ka: vec![],
             seen_digs: Default::default(), c: Default::default(),
         }
     }
@@ -455,6 +457,7 @@ impl Engine for LoopSim {
         self.victim_down_at = None;
         self.victim_repaired = false;
         self.idle_left = 0;
+        self.dense = std::env::var("VH_DENSE").is_ok();
         self.refail = None;
         self.refail_at = None;
         self.next_amnesia = T0 + 8_000;
@@ -700,7 +703,11 @@ impl Engine for LoopSim {
                 return Some(json!({"ev": "SetPath", "l": victim + 1, "p": p}));
             }
             if let Some(t0) = self.victim_down_at {
-                if !self.victim_repaired && (self.steps_done * 10 >= self.steps_total * 6 || now > t0 + 60_000) {
+                // the outage lasts in virtual time (long enough for the configured timeout to expire and a few retries to
+                // be made), whatever number of steps the dense phase consumed; the step bound is only a backstop
+                if !self.victim_repaired
+                    && (now > t0 + self.timeout_ms + 14_000 || self.steps_done * 100 >= self.steps_total * 85)
+                {
                     self.victim_repaired = true;
                     return Some(json!({"ev": "SetPath", "l": victim + 1, "p": "up"}));
                 }
@@ -813,11 +820,11 @@ impl Engine for LoopSim {
         }
         // right after the victim's path went down the stream is dense for a few seconds, so that the victim holds a
         // real backlog when its delivery proof goes stale (stall guard / silence pull engage, probe copies appear)
-        let dense = outage && self.victim_down_at.is_some_and(|t0| now < t0 + 2600) && !self.victim_repaired;
-        let adv = if dense { 450 } else if outage { 600 } else { 420 };
+        let dense = outage && self.dense && self.victim_down_at.is_some_and(|t0| now < t0 + 1800) && !self.victim_repaired;
+        let adv = if dense { 250 } else if outage { 600 } else { 420 };
         if r < adv {
             let d = if dense {
-                rng.random_range(1..6)
+                rng.random_range(2..7)
             } else if outage {
                 match rng.random_range(0..6) {
                     0 => rng.random_range(1..6),
